@@ -4,6 +4,7 @@ import (
 	"fmt"
 	"hash/fnv"
 	"path/filepath"
+	"runtime"
 	"strings"
 
 	"github.com/ohler55/slip/pkg/repl"
@@ -76,8 +77,16 @@ func guard(what string, fn func()) (err string) {
 	return
 }
 
+var opens int
+
 // openSess is what starting the REPL does: new objects, loaded from the directory.
 func openSess(dir string, limit int) (se *sess, err string) {
+	// History.Load and Stash.LoadExpanded never close the file they read; the descriptors are only
+	// released when the garbage collector finalizes the os.File values. A REPL loads once, the
+	// harness loads hundreds of thousands of times, so it collects regularly.
+	if opens++; opens%300 == 0 {
+		runtime.GC()
+	}
 	se = &sess{dir: dir, h: &repl.History{}, s: &repl.Stash{}}
 	err = guard("loading the history", func() {
 		se.h.SetLimit(limit)
@@ -277,6 +286,7 @@ func runRestart(c Case) *h.Result {
 		}
 		res.Evals++
 		kinds[op.K] = true
+		formClasses(op, c.Ops, i)
 		if r.compacted {
 			kinds["compaction"] = true
 		}
@@ -288,6 +298,55 @@ func runRestart(c Case) *h.Result {
 		res.Classes = append(res.Classes, "restart:has-"+k)
 	}
 	return res
+}
+
+// formClasses tallies what the generated forms look like (evidence only).
+func formClasses(op Op, ops []Op, i int) {
+	if op.K != "add" && op.K != "sadd" {
+		return
+	}
+	f := refhist.Form(op.F)
+	h.Class("form:"+op.K, 1)
+	if len(f) > 1 {
+		h.Class("form:multi-line", 1)
+	}
+	if f.Empty() {
+		h.Class("form:empty", 1)
+		return
+	}
+	for j := i - 1; j >= 0; j-- {
+		if ops[j].K == op.K {
+			if refhist.Form(ops[j].F).Equal(f) {
+				h.Class("form:same-as-previous", 1)
+			}
+			break
+		}
+	}
+	first, last := f[0], f[len(f)-1]
+	if strings.HasPrefix(first, " ") || strings.HasSuffix(last, " ") {
+		h.Class("form:blank-at-an-end", 1)
+	}
+	if len(f) > 1 && (strings.TrimSpace(first) == "" || strings.TrimSpace(last) == "") {
+		h.Class("form:empty-first-or-last-line", 1)
+	}
+	for k, l := range f {
+		if l == "" && k > 0 && k < len(f)-1 {
+			h.Class("form:empty-inner-line", 1)
+			break
+		}
+	}
+	for _, l := range f {
+		if strings.IndexFunc(l, func(r rune) bool { return r > 127 }) >= 0 {
+			h.Class("form:non-ascii", 1)
+			break
+		}
+	}
+	for _, l := range f {
+		if strings.ContainsAny(l, "\t\r\v\f") {
+			h.Class("form:control-character", 1)
+			break
+		}
+	}
 }
 
 // ---------------------------------------------------------------- oracle 2: a death at every file-system step
@@ -504,7 +563,11 @@ func genStashForm(rt *rapid.T, ctl bool) []string {
 			body = genAtoms(rt, 0)
 		}
 		if ctl && rapid.IntRange(0, 3).Draw(rt, "ctl") == 0 {
-			body += rapid.SampledFrom(ctlPieces).Draw(rt, "ctlpiece")
+			// stash forms must be readable: TAB and CR are white space for slip's reader, VT and FF are
+			// a parse error (they appear in history lines only, which are not read)
+			if p := rapid.SampledFrom(ctlPieces).Draw(rt, "ctlpiece"); !strings.ContainsAny(p, "\v\f") {
+				body += p
+			}
 		}
 		line := genBlank(rt, "lead")
 		if i == 0 {
